@@ -21,8 +21,9 @@ import Dashu.Proofs.Trans.SeriesBound
   for operands of any length (`sum_add_keeps_one`), and the error propagation through one stage of the loop
   (`expStage_error`, `expTerms_error`: the k-th term is `r^k / k!` up to `k` relative errors `B^(1−w)`).
 
-  NOT proved (see `vlib/props/c11.py` FRONTIER): step bounds for the atanh loops (`ln_internal`, `iacoth`) and for the
-  unscaled `exp_m1` branch (alternating series), and the accumulated error of the partial SUM.
+  Also a step bound for the loop of `iacoth` (all terms positive; `iacothLoop_step_bound`, theorem only).
+  NOT proved (see `vlib/props/c11.py` FRONTIER): step bounds for the atanh loop of `ln_internal` and for the
+  unscaled `exp_m1` branch (terms of either sign), and the accumulated error of the partial SUM.
 -/
 namespace Dashu.Props.C11Series
 open Dashu.Model.Float Dashu.Model.Trans
@@ -226,6 +227,30 @@ theorem expLoop_state (E : Env) (r : FBigM) (fuel : Nat) (fa : Int) (pw sm : FBi
         else expLoop E r fuel (fa * (k : Int)) (fMul E pw r) (fAddSub E sm increase 1) (k + 1) :=
   expLoop_unfold E r fuel fa pw sm k
 
+open Dashu.Proofs.Trans.SeriesBound in
+/-- **Step bound of the loop of `Context::iacoth`** (`pow *= inv2; increase = pow / k; if increase < sum.sub_ulp() { return }
+    sum += increase; k += 2`; all terms positive) for `0 ≤ inv2 ≤ B^(−u)` held at `w ≥ 1` digits, under the same oracle
+    hypotheses as `expLoop_step_bound` (`DubSound`, `CoarseSound`, two-sided `DlbTight`): from a state `0 ≤ pow ≤ B^b`,
+    `sum ≥ B^L`, both at precision `w`, the loop returns a value with any fuel `≥ 1` such that `u·fuel > b − L + cS + w`, and
+    the last index is below `k + 2·fuel`.  (In `iacoth(n)`: `pow = sum = 1/n`, so `b − L = 1`; `inv2 = 1/n²`.)
+    Theorem only: the driver does not evaluate it per case. -/
+theorem iacothLoop_step_bound (E : Env) (hB : 2 ≤ E.B) (hc : CoarseSound E.c) (hdub : DubSound E.B E.est.dub) (cS : Nat)
+    (hd : DlbTight E.B E.est.dlb cS) (inv2 : FBigM) (w u : Nat) (hw : 1 ≤ w) (hip : inv2.prec = w)
+    (hi0 : 0 ≤ inv2.repr.toRat E.B) (hiu : inv2.repr.toRat E.B ≤ bpowQ E.B (-(u : Int))) (L : Int)
+    (fuel : Nat) (pw sm : FBigM) (k : Nat) (b : Int)
+    (hpp : pw.prec = w) (hp0 : 0 ≤ pw.repr.toRat E.B) (hpb : pw.repr.toRat E.B ≤ bpowQ E.B b)
+    (hsL : bpowQ E.B L ≤ sm.repr.toRat E.B) (hsp : sm.prec = w) (hk : 1 ≤ k)
+    (hf1 : 1 ≤ fuel) (hfuel : b - L + (cS : Int) + (w : Int) < (u : Int) * (fuel : Int)) :
+    ∃ res, iacothLoop E w inv2 fuel pw sm k = .ok (some res) ∧ k ≤ res.2 ∧ res.2 < k + 2 * fuel :=
+  iacothLoop_bound E hB hc hdub cS hd inv2 w u hw hip hi0 hiu L fuel pw sm k b hpp hp0 hpb hsL hsp hk hf1 hfuel
+
+open Dashu.Proofs.Trans.SeriesBound in
+/-- `sum += increase` keeps a sum `≥ B^L` at or above `B^L` (any `L`; `sum_add_keeps_one` is `L = 0`) -/
+theorem sum_add_keeps_pow (E : Env) (hB : 2 ≤ E.B) (hc : CoarseSound E.c) (hdub : DubSound E.B E.est.dub) (x y : FBigM)
+    (hp : 1 ≤ ctxMaxP x.prec y.prec) (L : Int) (hx : bpowQ E.B L ≤ x.repr.toRat E.B) (hy : 0 < y.repr.signif) :
+    bpowQ E.B L ≤ (fAddSub E x y 1).repr.toRat E.B :=
+  fAddSub_keeps_pow E hB hc hdub x y hp L hx hy
+
 /-! non-vacuity: the loops do end on concrete inputs (base 10, mode HalfEven, a sound estimate oracle) -/
 
 /-- an oracle built from exact digit counts (sound for `dub`/`dlb`; the driver uses the `f32` replica instead) -/
@@ -270,5 +295,13 @@ example : ∃ res, expLoop E10 ⟨⟨5, -3⟩, 6⟩ 5 1 ⟨⟨5, -3⟩, 6⟩ (fA
 example : 1 ≤ (fAddSub E10 ⟨⟨1005, -3⟩, 4⟩ ⟨⟨12345, -9⟩, 4⟩ 1).repr.toRat 10 :=
   sum_add_keeps_one E10 (by decide) coarseNone_sound (exactEst_dub_sound 10) _ _ (by decide)
     (by decide +kernel) (by decide)
+
+/-- non-vacuity of `iacothLoop_step_bound`: base 10, `iacoth(6)` at `w = 6`: `inv = 0.166667`, `inv2 = 0.0277779 ≤ 10^-1`
+    (`u = 1`), `pow = sum = inv ≤ 10^0` (`b = 0`), `sum ≥ 10^-1` (`L = -1`), `cS = 1`, fuel 9 (`1 + 1 + 6 < 9`) -/
+example : ∃ res, iacothLoop E10 6 ⟨⟨277779, -7⟩, 6⟩ 9 ⟨⟨166667, -6⟩, 6⟩ ⟨⟨166667, -6⟩, 6⟩ 3 = .ok (some res) ∧ 3 ≤ res.2 ∧
+    res.2 < 3 + 2 * 9 :=
+  iacothLoop_step_bound E10 (by decide) coarseNone_sound (exactEst_dub_sound 10) 1 (exactEst_dlb_tight 10)
+    ⟨⟨277779, -7⟩, 6⟩ 6 1 (by decide) rfl (by decide +kernel) (by decide +kernel) (-1) 9 ⟨⟨166667, -6⟩, 6⟩ ⟨⟨166667, -6⟩, 6⟩ 3 0
+    rfl (by decide +kernel) (by decide +kernel) (by decide +kernel) rfl (by decide) (by decide) (by decide)
 
 end Dashu.Props.C11Series
